@@ -35,7 +35,9 @@ The clauses are the sentences of the property with the *normalised* composition 
   the P obtained from T (and vice versa) — with identical compositions returned.
 Frame: the caller's z and the solver object's domain fields are unchanged.
 
-Mode B (bounded, never counted as proved): the real solvers on real property data, deterministic grid.
+Mode B (bounded, never counted as proved): the real solvers on real property data, deterministic grid
+(C08/grid_real_solvers), and inputs on which the real secant solve fails so that the bracketing fall-back gives the answer
+(C08/fallback_real_solvers).
 """
 import os
 import sys
@@ -653,7 +655,8 @@ def _solver_body(solver):
 
 
 _A = ['A-root: flx.aitken_secant / IQ_interpolation return x* > 0 with callback(x*) == 0, last evaluation at x*; '
-      'flx.wegstein returns x* with callback(x*) == x*',
+      'flx.wegstein returns x* with callback(x*) == x*; the requires side of IQ_interpolation (residuals handed over for the '
+      'bracket ends are the callback\'s values there) is an obligation on the code under check, not assumed',
       'A-models: Psat_k(T), Tsat_k(P), gamma_k(x,T), phi_k(y,T,P), pcf_k(T,P) uninterpreted positive functions '
       '(gamma, phi equivariant under permutation of the chemical list); dew point: Psat_k >= 1e-16 Pa (below that '
       'DewPoint._T_error replaces the model value); configurations z=s*(..) (concrete composition, arbitrary total): '
